@@ -1,7 +1,7 @@
 """Implementation driver for C10: crash sweep on the real task runner.
 
-stdin : {"scratch": dir, "workers": 16, "cases": [{"launches": [{"mode", "sig", "n", "n2", "waiter"}, ...]}, ...]}
-        n2: a second death (SIGKILL at the n2-th executed line, after the first signal)
+stdin : {"scratch": dir, "workers": 16, "cases": [{"launches": [{"mode", "sig", "n", "kill_after", "waiter"}, ...]}, ...]}
+        kill_after: j - a second death (SIGKILL when j observable effects have followed the first signal)
         waiter: {"mode", "sig", "n"} | {"mode", "sig", "ext": ms, "after_line": n} - a second job process for the
         same directory, started while the first is held in its body (see launch_double)
 stdout: last line = JSON list, one entry per case: {"launches": [observation, ...]}
@@ -77,13 +77,13 @@ def observe(job):
                 lockfree=lockfree, B=text.count("B"), E=text.count("E"), X=text.count("X"))
 
 
-def start(job, evlog, mode, sig, n, env, n2=0, hold=None):
+def start(job, evlog, mode, sig, n, env, j2=None, hold=None):
     """Starts the generated script under the crash wrapper and writes <name>.pid as CommandLineJob.aio_run does."""
     if evlog.exists():
         evlog.unlink()
     pb = LocalConnector.instance().processbuilder()
     pb.command = [PY, "-W", "ignore", "-m", "vpk_c10.crashrun", str(job["script"]), str(evlog),
-                  sig or "NONE", str(n or 0), str(n2 or 0)]
+                  sig or "NONE", str(n or 0), str(-1 if j2 is None else j2)]
     e = dict(env)
     e["VPK_C10_MODE"] = mode
     e.pop("VPK_C10_HOLD", None)
@@ -111,34 +111,40 @@ def wait(process, limit=90):
 def read_log(evlog):
     """-> effects before the (first) signal, after it, executed lines, the signal record, the second death,
     the number of lines executed when the lock was taken"""
-    pre, post, lines, kill, kill2, lock_n = [], [], [], None, None, None
+    pre, post, lines, kill, kill2, lock_n, body_n, pre_n = [], [], [], None, None, None, None, []
     for line in (evlog.read_text().splitlines() if evlog.exists() else []):
         tag, _, rest = line.partition(" ")
         if tag == "L":
             lines.append(rest.split(" ")[1])
         elif tag == "K":
             f = rest.split(" ")
-            rec = dict(sig=f[0], ctx=f[1], n=int(f[2]), at=f[3])
+            rec = dict(sig=f[0], ctx=f[1], n=int(f[2]), at=f[3])   # (second death: ctx "-", n = j, at = eff:<next>)
             if kill is None:
                 kill = rec
             else:
                 kill2 = rec
         elif tag == "E":
             (post if kill else pre).append(rest)
+            if not kill:
+                pre_n.append(len(lines))
             if rest == "Lock" and lock_n is None:
                 lock_n = len(lines)
-    return pre, post, lines, kill, kill2, lock_n
+            if rest == "BodyBegin" and body_n is None:
+                body_n = len(lines)
+    return pre, post, lines, kill, kill2, lock_n, body_n, pre_n
 
 
 def record(job, evlog, l, rc, hung):
-    pre, post, lines, kill, kill2, lock_n = read_log(evlog)
+    pre, post, lines, kill, kill2, lock_n, body_n, pre_n = read_log(evlog)
     out = dict(mode=l["mode"], sig=l.get("sig"), n=l.get("n") or 0, fired=kill is not None,
                ctx=kill["ctx"] if kill else None, at=kill["at"] if kill else None,
                killed_again=kill2 is not None, at2=kill2["at"] if kill2 else None,
                pre=pre, post=post, rc=rc, nlines=len(lines), hung=hung or rc == 97)
     if l.get("ref"):
         out["lines"] = lines
-        out["lock_n"] = lock_n
+        out["lock_n"] = lock_n   # number of executed lines when the lock was taken (the last one calls lock.acquire)
+        out["body_n"] = body_n   # ... when the body began
+        out["pre_n"] = pre_n     # ... at each observed effect
     if rc not in (0, 1, -9, -15, -2) or os.environ.get("VPK_C10_KEEPERR"):
         out["stderr_tail"] = job["stderr"].read_text()[-1500:] if job["stderr"].is_file() else ""
     return out
@@ -148,7 +154,7 @@ def launch(job, k, l, env):
     if l.get("waiter"):
         return launch_double(job, k, l, env)
     evlog = job["path"] / f"events.{k}.log"
-    process = start(job, evlog, l["mode"], l.get("sig"), l.get("n"), env, n2=l.get("n2"))
+    process = start(job, evlog, l["mode"], l.get("sig"), l.get("n"), env, j2=l.get("kill_after"))
     rc, hung = wait(process)
     out = record(job, evlog, l, rc, hung)
     out["obs"] = observe(job)
@@ -188,7 +194,7 @@ def launch_double(job, k, l, env):
     evh, evw = job["path"] / f"events.{k}.log", job["path"] / f"events.{k}.w.log"
     if evw.exists():
         evw.unlink()
-    ph = start(job, evh, l["mode"], l.get("sig"), l.get("n"), env, n2=l.get("n2"), hold=latch)
+    ph = start(job, evh, l["mode"], l.get("sig"), l.get("n"), env, hold=latch)
     in_body = wait_for(lambda: evh.exists() and "E BodyBegin" in evh.read_text(), ph, 90)
     wrec = None
     if in_body and process_alive(ph):
@@ -214,7 +220,7 @@ def launch_double(job, k, l, env):
                     pass
         rcw, hungw = wait(pw, limit=40)
         wrec = record(job, evw, dict(mode=w["mode"], sig=w["sig"], n=w.get("n")), rcw, False)
-        wrec.update(ext=w.get("ext"), never_died=hungw or not sent, before=before, obs=observe(job),
+        wrec.update(ext=w.get("ext"), never_died=hungw, before=before, obs=observe(job),
                     holder_alive=process_alive(ph))
     latch.touch()
     rc, hung = wait(ph)
